@@ -23,6 +23,17 @@ with a shrunk failing input, I != S):
   8 setops: intersection loop starts at L[3:] - needs >= 3 maps where the third removes a key
   (`score <= scores[0]` -> `score < scores[0]` in addmany is an equivalent mutation: the equal-score item is
   inserted at index 0 and immediately evicted.)
+Size-gated code paths (round 3): seeded C17_E (probe instead of merge for a 3rd+ operand > 32 x the running result,
+dropping docids whose score there is 0.0) and C17_F (addmany pre-selects with a sort when given > 128 pairs as a
+list / tuple, later items win ties) were missed before and are caught now (quick seeds 0-3): `bigsmall` cases put
+1-3 maps of 1-8 keys next to 1-2 maps of 300-3000 keys (Buckets, BTrees, mixed; all orders of 3 operands; scores
+exactly 0.0 and negative at the surviving docids), `bulk` NBest sessions feed addmany 129-1000 pairs as list,
+tuple, iterator and generator with 1-9 (40) distinct scores, ascending / descending / random arrival, capacities
+1-200, repeated items.  Two more of the class, both VIOLATION on quick seed 0:
+  9  mass_weightedUnion copies one operand > 32 x the others and adds the rest by lookup, forgetting the weight for
+     docids the big operand lacks - needs a tiny operand with weight != 1 and a docid outside the big one
+  10 addmany de-duplicates a list / tuple of > 128 pairs through dict(sequence) - needs an item twice in a big batch
+  Replays of big cases are shrunk by halving chunks of entries (the seed replays end at 33 entries vs 1, 129 pairs).
   `bisect <x> <scores>` compares the model's binary search (`NBest.bisectLeft`, theorem `c17_bisect_left`) with
   CPython's `bisect.bisect_left` (a trusted-base definition checked on every run); mutation 4 re-run after the
   addition: still caught.
@@ -96,6 +107,9 @@ def model_cmd(c):
     if c[0] in ("union", "inter", "uniontag", "intertag"):
         ops = [(bits(w), None if m is None else [(k, bits(v)) for k, v in m]) for w, m in split_ops(c[1:])]
         return join_ops(c[0], ops)
+    if c[0] in ("addmanyt", "addmanyi", "addmanyg"):
+        # the same pairs handed over as a tuple / an iterator / a generator: one model operation
+        return ["addmany"] + list(c[1:])
     return c
 
 
@@ -148,8 +162,15 @@ def same(a, b):
 # ----------------------------------------------------------------------------
 # generator
 # ----------------------------------------------------------------------------
-def gen_score(rng, stream):
+def gen_score(rng, stream, signed=False):
     if stream == "dyadic":
+        if signed:
+            # a score of exactly 0.0 is a score (the docid is IN the map), and so is a negative one
+            r = rng.random()
+            if r < 0.12:
+                return 0.0
+            if r < 0.24:
+                return -rng.choice([0.125, 0.5, 1.0, 2.0, 3.0, rng.randrange(1, 1024) / 8.0])
         return rng.choice([0.125, 0.25, 0.5, 1.0, 1.5, 2.0, 3.0, 127.875]) if rng.random() < 0.5 \
             else rng.randrange(1, 1024) / 8.0
     r = rng.random()
@@ -202,14 +223,88 @@ def gen_maps(rng, stream, ids, tier):
     return maps
 
 
+def gen_bigsmall(rng, tier):
+    """>= 3 operands of very different sizes: 1-3 tiny maps (1-8 keys) next to 1-2 maps of 300-3000 keys, so that a
+    running result is a few docids while the next operand is hundreds of times larger (size-gated code paths:
+    probing instead of merging, copying the big operand, ...); dyadic scores incl. exactly 0.0 and negative ones"""
+    extreme = [2 ** 31 - 1, -2 ** 31]
+    nbig = rng.choice([1, 1, 1, 2])
+    ntiny = rng.choice([2, 2, 2, 3, 1 if nbig == 2 else 2])
+    sizes = [rng.choice([300, 300, 400, 640, 1000, 1500] if tier == "quick" or rng.random() < 0.7 else [2000, 3000])
+             for _ in range(nbig)]
+    if rng.random() < 0.12:
+        sizes[0] = 3000
+    lo = rng.choice([-50, 0, 0, -2000])
+    universe = list(range(lo, lo + max(sizes) + rng.choice([0, 50, 400]))) + extreme
+    bigs = [sorted(rng.sample(universe, n)) for n in sizes]
+    anchor = bigs[0]
+    ncore = rng.choice([1, 2, 3, 3, 5, 8])
+    core = rng.sample(anchor, ncore)               # docids meant to survive every operand
+    if rng.random() < 0.3:
+        core[0] = rng.choice(extreme)
+    maps = []
+    for j, keys in enumerate(bigs):
+        ks = set(keys)
+        ks.update(core if rng.random() < 0.85 else core[:-1])
+        vals = {}
+        for k in ks:
+            vals[k] = gen_score(rng, "dyadic", signed=True) if rng.random() < 0.5 else (k % 5) / 4.0
+        for k in core:                              # zeros / negatives exactly where it matters
+            if k in vals and rng.random() < 0.45:
+                vals[k] = rng.choice([0.0, 0.0, -0.5, -2.0, 0.25])
+        maps.append((gen_weight(rng, "dyadic"), sorted(vals.items())))
+    for j in range(ntiny):
+        ks = set(core if rng.random() < 0.8 else core[1:])
+        for _ in range(rng.randrange(0, 6)):
+            k = rng.choice(anchor) if rng.random() < 0.6 else rng.choice(universe)
+            ks.add(k + 5000 if rng.random() < 0.3 and abs(k) < 2 ** 30 else k)    # stays a 32-bit docid
+        maps.append((gen_weight(rng, "dyadic"), [(k, gen_score(rng, "dyadic", signed=rng.random() < 0.6))
+                                                 for k in sorted(ks)]))
+    rng.shuffle(maps)
+    return maps
+
+
+def gen_setops_bigsmall(rng, tier, idx):
+    fam = rng.choice([32, 64])
+    kind = rng.choice(["bucket", "btree", "mixed"])
+    maps = gen_bigsmall(rng, tier)
+    op = "inter" if rng.random() < 0.7 else "union"
+    cmds = [join_ops(op, maps)]
+    n = len(maps)
+    if n == 3:
+        perms = list(itertools.permutations(range(n)))[1:]          # ALL orders
+    else:
+        perms = [list(range(n))[::-1]]
+        for _ in range(3 if tier == "quick" else 6):
+            p = list(range(n))
+            rng.shuffle(p)
+            perms.append(p)
+    for p in perms:
+        cmds.append(join_ops(op, [maps[i] for i in p]))
+    if rng.random() < 0.3:
+        ops = list(maps)
+        ops.insert(rng.randrange(len(ops) + 1), (1, None))
+        cmds.append(join_ops("inter", ops))
+    if rng.random() < 0.3:
+        cmds.append(join_ops("inter" if op == "union" else "union", maps))
+    return {"session": "setops", "cfg": [["cfg", "fam", fam], ["cfg", "kind", kind], ["cfg", "stream", "dyadic"],
+                                         ["cfg", "shape", "bigsmall"]], "cmds": cmds}
+
+
 def gen_setops(rng, tier, idx):
+    if rng.random() < 0.07:
+        return gen_setops_bigsmall(rng, tier, idx)
     fam = rng.choice([32, 64])
     stream = "dyadic" if rng.random() < 0.7 else "float"
     kind = rng.choice(["bucket", "bucket", "btree", "mixed"])
     ids = list(range(16)) + ([2 ** 31 - 1, -2 ** 31] if fam == 32 else [2 ** 31 - 1, -2 ** 31, 2 ** 62, -2 ** 62])
     cmds = []
+    signed = stream == "dyadic" and rng.random() < 0.3
     for _ in range(rng.randrange(1, 4)):
         maps = gen_maps(rng, stream, ids, tier)
+        if signed:
+            maps = [(w, [(k, gen_score(rng, "dyadic", True) if rng.random() < 0.5 else v) for k, v in m])
+                    for w, m in maps]
         op = rng.choice(["union", "inter"])
         ops = list(maps)
         if op == "inter" and rng.random() < 0.35:
@@ -249,7 +344,7 @@ def gen_nbest(rng, tier, idx):
             item += 1
             cmds.append(["add", item, rng.randrange(nscores)])
         elif r < 0.55:
-            c = ["addmany"]
+            c = [rng.choice(ADDMANY)]
             for _ in range(rng.randrange(0, 2 * cap + 3)):
                 item += 1
                 c += [item, rng.randrange(nscores)]
@@ -276,8 +371,64 @@ def gen_nbest(rng, tier, idx):
     return {"session": "setopsnbest", "cfg": [["cfg", "scale", scale]], "cmds": cmds}
 
 
+ADDMANY = ["addmany", "addmanyt", "addmanyi", "addmanyg"]
+
+
+def gen_nbest_bulk(rng, tier, idx):
+    """big addmany batches (129-1000 pairs; list, tuple, iterator, generator) with heavy ties straddling the cut,
+    mixed with add / pop_smallest / getbest; items may repeat"""
+    scale = rng.choice([1, 8])
+    cap = rng.choice([1, 2, 3, 5, 8, 10, 10, 25, 50, 128, 129, 200])
+    cmds = [["new", cap]]
+    nscores = rng.choice([1, 2, 3, 3, 5, 9, 40])
+    item = [0]
+    repeat_items = rng.random() < 0.25
+
+    def pairs(n):
+        c = []
+        for _ in range(n):
+            if repeat_items and item[0] > 3 and rng.random() < 0.3:
+                it = rng.randrange(1, item[0] + 1)
+            else:
+                item[0] += 1
+                it = item[0]
+            c += [it, rng.randrange(nscores)]
+        return c
+
+    for _ in range(rng.randrange(2, 7)):
+        r = rng.random()
+        if r < 0.5:
+            n = rng.choice([129, 130, 150, 200, 256, 257, 300, 400] if tier == "quick" or rng.random() < 0.6
+                           else [500, 700, 1000])
+            if rng.random() < 0.1:
+                n = rng.choice([127, 128, 1000])
+            c = pairs(n)
+            m = rng.random()
+            if m < 0.3:
+                # ascending / descending arrival, the tie at the cut then sits at a known end of the batch
+                ps = sorted([(c[i + 1], c[i]) for i in range(0, len(c), 2)], reverse=rng.random() < 0.5)
+                c = [t for sc, it in ps for t in (it, sc)]
+            cmds.append([rng.choice(ADDMANY)] + c)
+        elif r < 0.62:
+            cmds.append([rng.choice(ADDMANY)] + pairs(rng.randrange(0, 2 * min(cap, 20) + 3)))
+        elif r < 0.75:
+            cmds.append(["add"] + pairs(1))
+        elif r < 0.88:
+            for _ in range(rng.choice([1, 1, 2, cap // 2 + 1])):
+                cmds.append(["pop"])
+        else:
+            cmds.append(["len"])
+        cmds.append(["best"])
+    return {"session": "setopsnbest", "cfg": [["cfg", "scale", scale], ["cfg", "mode", "bulk"]], "cmds": cmds}
+
+
 def gen(rng, tier, idx):
-    return gen_setops(rng, tier, idx) if rng.random() < 0.6 else gen_nbest(rng, tier, idx)
+    r = rng.random()
+    if r < 0.6:
+        return gen_setops(rng, tier, idx)
+    if r < 0.68:
+        return gen_nbest_bulk(rng, tier, idx)
+    return gen_nbest(rng, tier, idx)
 
 
 # ----------------------------------------------------------------------------
@@ -339,9 +490,13 @@ def impl_nbest(hyp, case):
             elif op == "add":
                 nb.add(c[1], sc(c[2]))
                 outs.append("ok")
-            elif op == "addmany":
-                nb.addmany([(c[i], sc(c[i + 1])) for i in range(1, len(c), 2)])
-                outs.append("ok")
+            elif op in ("addmany", "addmanyt", "addmanyi", "addmanyg"):
+                ps = [(c[i], sc(c[i + 1])) for i in range(1, len(c), 2)]
+                before = list(ps)
+                arg = ps if op == "addmany" else tuple(ps) if op == "addmanyt" else iter(ps) if op == "addmanyi" \
+                    else (p for p in ps)
+                nb.addmany(arg)
+                outs.append("ok" if ps == before else "argument-modified")
             elif op == "pop":
                 it, s = nb.pop_smallest()
                 outs.append("%d:%d" % (it, unsc(s)))
@@ -386,6 +541,8 @@ def features(case, outs):
     if case["session"] == "setops":
         cfg = cfgdict(case)
         f += ["fam:%s" % cfg["fam"], "kind:" + cfg["kind"], "stream:" + cfg["stream"]]
+        if cfg.get("shape") == "bigsmall":
+            f.append("case:bigsmall")
         for c, o in zip(case["cmds"], outs):
             ops = split_ops(c[1:])
             real = [(w, m) for w, m in ops if m is not None]
@@ -410,6 +567,39 @@ def features(case, outs):
                     f.append(op[:5] + ":big-operand")
                 if any(w != 1 for w, _ in real[2:]):
                     f.append(op[:5] + ":non-1-weight-after-first-pair")
+                vals = [v for _, m in real for _, v in m]
+                if any(v == 0 for v in vals):
+                    f.append(op[:5] + ":has-zero-score")
+                if any(v < 0 for v in vals):
+                    f.append(op[:5] + ":has-negative-score")
+                if len(real) >= 3 and not o.startswith("err"):
+                    # sizes as the code meets them (sorted by length): running result vs next operand
+                    srt = sorted(real, key=lambda p: len(p[1]))
+                    run = set(k for k, _ in srt[0][1])
+                    if op.startswith("inter"):
+                        run &= set(k for k, _ in srt[1][1])
+                    else:
+                        run |= set(k for k, _ in srt[1][1])
+                    for w, m in srt[2:]:
+                        if len(m) > 32 * len(run) and run:
+                            f.append(op[:5] + ":next-operand>32x-running-result")
+                            if op.startswith("inter"):
+                                mm = dict(m)
+                                if any(mm.get(k) == 0 for k in run):
+                                    f.append("inter:>32x-operand-holds-0.0-at-surviving-docid")
+                                if any(mm.get(k, 1) < 0 for k in run):
+                                    f.append("inter:>32x-operand-holds-negative-at-surviving-docid")
+                            f.append(op[:5] + ":>32x-operand-is-" + ("btree" if cfg["kind"] == "btree" else
+                                                                      cfg["kind"]))
+                            break
+                        if op.startswith("inter"):
+                            run &= set(k for k, _ in m)
+                        else:
+                            run |= set(k for k, _ in m)
+                if sizes[-1] >= 300:
+                    f.append(op[:5] + ":operand>=300-keys")
+                if sizes[-1] >= 2000:
+                    f.append(op[:5] + ":operand>=2000-keys")
                 if o == "{}" or o == "~{}":
                     f.append(op[:5] + ":empty-result")
             if o in ("operand", "fresh"):
@@ -417,6 +607,8 @@ def features(case, outs):
         return f
     cap = None
     held = 0
+    if cfgdict(case).get("mode") == "bulk":
+        f.append("case:nbest-bulk")
     for c, o in zip(case["cmds"], outs):
         f.append("nb:" + c[0])
         if o.startswith("err"):
@@ -424,7 +616,19 @@ def features(case, outs):
         if c[0] == "new" and o == "ok":
             cap, held = c[1], 0
             f.append("nb:cap=%d" % cap)
-        elif c[0] in ("add", "addmany") and cap:
+        elif c[0] in ("add", "addmany", "addmanyt", "addmanyi", "addmanyg") and cap:
+            n = (len(c) - 1) // 2
+            if n > 128:
+                f.append("nb:batch>128:" + c[0])
+                scs = sorted((c[i + 1] for i in range(1, len(c), 2)), reverse=True)
+                if len(scs) > cap and scs[cap - 1] == scs[cap]:
+                    f.append("nb:batch>128-tie-straddles-the-cut")
+                    f.append("nb:batch>128-tie-straddles-the-cut:" + c[0])
+                if n >= 500:
+                    f.append("nb:batch>=500")
+            its = [c[i] for i in range(1, len(c), 2)]
+            if len(set(its)) < len(its):
+                f.append("nb:batch-repeats-an-item")
             for _ in range(1, len(c), 2):
                 if held >= cap:
                     f.append("nb:add-when-full")
@@ -442,30 +646,65 @@ def features(case, outs):
 
 
 def shrink_more(case, fails):
-    """drop operands, then entries, of the remaining set-algebra commands"""
-    if case["session"] != "setops":
-        return case
+    """drop operands, then entries (in halving chunks: operands can hold thousands of entries), of the remaining
+    set-algebra commands; NBest sessions: thin out the big batches the same way"""
+    budget = [400]
+
+    def try_(c2):
+        if budget[0] <= 0:
+            return False
+        budget[0] -= 1
+        return fails(c2)
+
+    def with_cmd(best, ci, toks):
+        return dict(best, cmds=best["cmds"][:ci] + [toks] + best["cmds"][ci + 1:])
+
     best = case
+    if case["session"] != "setops":
+        for ci in range(len(best["cmds"])):
+            c = best["cmds"][ci]
+            if not c[0].startswith("addmany") or len(c) < 9:
+                continue
+            ps = [(c[i], c[i + 1]) for i in range(1, len(c), 2)]
+            chunk = len(ps) // 2
+            while chunk >= 1 and budget[0] > 0:
+                i = 0
+                while i < len(ps) and budget[0] > 0:
+                    cand = ps[:i] + ps[i + chunk:]
+                    c2 = with_cmd(best, ci, [c[0]] + [t for p_ in cand for t in p_])
+                    if cand and try_(c2):
+                        ps, best = cand, c2
+                    else:
+                        i += chunk
+                chunk //= 2
+        return best
     changed = True
-    while changed:
+    while changed and budget[0] > 0:
         changed = False
         for ci, c in enumerate(best["cmds"]):
             ops = split_ops(c[1:])
-            cands = []
             for j in range(len(ops)):
-                cands.append(ops[:j] + ops[j + 1:])
-            for j, (w, m) in enumerate(ops):
-                if m:
-                    for e in range(len(m)):
-                        cands.append(ops[:j] + [(w, m[:e] + m[e + 1:])] + ops[j + 1:])
-            for cand in cands:
-                c2 = dict(best, cmds=best["cmds"][:ci] + [join_ops(c[0], cand)] + best["cmds"][ci + 1:])
-                if fails(c2):
-                    best = c2
-                    changed = True
+                c2 = with_cmd(best, ci, join_ops(c[0], ops[:j] + ops[j + 1:]))
+                if try_(c2):
+                    best, changed = c2, True
                     break
             if changed:
                 break
+            for j, (w, m) in enumerate(ops):
+                if not m:
+                    continue
+                chunk = max(1, len(m) // 2)
+                while chunk >= 1 and budget[0] > 0:
+                    i = 0
+                    while i < len(m) and budget[0] > 0:
+                        cand = m[:i] + m[i + chunk:]
+                        c2 = with_cmd(best, ci, join_ops(c[0], ops[:j] + [(w, cand)] + ops[j + 1:]))
+                        if try_(c2):
+                            m, best, changed = cand, c2, True
+                            ops = ops[:j] + [(w, m)] + ops[j + 1:]
+                        else:
+                            i += chunk
+                    chunk //= 2
     return best
 
 
@@ -476,7 +715,19 @@ RULE = ("60% set-algebra cases: 1-3 operand lists of 0-6 IF maps (0-18 keys from
         "operands in 30% of the lists), buckets / BTrees / mixed, family32 and family64, 70% dyadic scores "
         "compared exactly and 30% arbitrary float32 scores compared with rel. tol. 2e-6; 40% NBest sessions: "
         "capacity 1-8 (and N<1), 3-30 (thorough 80) add/addmany/pop_smallest/getbest/len calls with scores "
-        "from a pool of 1-9 values (heavy ties), scores as ints or as k/8 floats. non-trivial = an operand "
+        "from a pool of 1-9 values (heavy ties), scores as ints or as k/8 floats, addmany given a list / tuple / "
+        "iterator / generator. 7% of the set-algebra cases are `bigsmall`: 1-3 maps of 1-8 keys and 1-2 maps of "
+        "300-1500 (12%: 3000; thorough also 2000) keys sharing a core of 1-8 docids, dyadic scores with exactly 0.0 "
+        "and negative values (45% of the core entries of a big map), every order of 3 operands (4-5 random orders "
+        "of more), a None operand added in 30%; a third of the ordinary dyadic cases also draw 0.0 / negative "
+        "scores. 8% of all cases are `bulk` NBest sessions: capacity 1-200, 2-6 steps of addmany with 129-400 "
+        "(thorough to 1000) pairs - ascending, descending or random arrival, 1-40 distinct scores, a quarter with "
+        "repeated items - mixed with short batches, add, pop_smallest, len, getbest after every step. Measured "
+        "quick seed 0 (3008 cases): bigsmall 138 cases, an intersection operand > 32 x the running result 600 "
+        "commands (union 237), holding 0.0 at a surviving docid 362, a negative score there 324, that operand a "
+        "Bucket 238 / BTree 137 / mixed case 225, operands >= 300 keys 856 commands (>= 2000: 54); bulk 246 cases, "
+        "batches > 128 pairs 494 (list 118, tuple 138, iterator 114, generator 124), a tie straddling the cut in "
+        "446 of them, batches repeating an item 148. non-trivial = an operand "
         "list of >= 2 maps sharing a key with a non-empty result / two different getbest answers with >= 2 "
         "entries")
 LEVEL_TEXT = ("Lean 4 theorems over the reals for every list of (map, weight) pairs: the modelled "
